@@ -1254,7 +1254,7 @@ N_SHRUNK = [0]
 
 def witness(g, pp, mp, lexer, tr, kind):
     script = tr.script
-    if kind in ('tree', 'lexer') and N_SHRUNK[0] < 12:
+    if kind in ('tree', 'lexer') and N_SHRUNK[0] < 12 and not (tr.fail and tr.fail[0] == 'hang'):
         N_SHRUNK[0] += 1
         try:
             script = shrink(g, pp, mp, lexer, tr, kind)
